@@ -402,7 +402,7 @@ def run_check(c, which):
         if gold.exists():
             for g in json.load(open(gold)):
                 (fs_cases if g.get("kind", "fs") == "fs" else in_cases).append(g)
-        nfs = 300 if quick else 2000
+        nfs = 300 if quick else 2600
         nin = 60 if quick else 400
     for _ in range(nfs):
         fs_cases.append(gen_fs(c.rng, not quick))
